@@ -368,6 +368,8 @@ def relex_proved_classes():
 
 
 def replay(obj):
+    if obj.get("kind") in ("no-failing-input-found", "correspondence") or obj.get("correspondence"):
+        return vlib.replay_correspondence(obj)
     print(json.dumps(obj, indent=1)[:4000])
     r = obj.get("replay", obj)
     if "src" in r:
